@@ -839,6 +839,12 @@ func runC12(c *Ctx) {
 	}
 	c.sharedBoxes()
 	c.omoObj("C06")
+	// the From-constructors called directly with something that is not one of their seven flavours
+	m.Case("from-constructors")
+	for _, g := range []*GV{gvUnsupported(0), gvUnsupported(3), gvUnsupported(11), gvInt(1), gvStr("s"), gvNil(), {K: '<', Fl: 'a'}, {K: '(', Fl: 'a'}, {K: '(', Fl: 's', NilC: true}, {K: '<', Fl: 'i', NilC: true}} {
+		m.NewListFrom(g)
+		m.NewObjectFrom(g)
+	}
 	nontrivial := func(g *GV) bool { return !(g.K == 'n' || g.K == 'b' || g.K == 'i' || g.K == 'd' || g.K == 's') }
 	for _, g := range vals {
 		m.Case("entry-points")
